@@ -468,6 +468,9 @@ func runC12(o *opts) error {
 					if j.kind == "S" && strings.HasPrefix(j.caseLine, "S d") {
 						// streams d1/d2 (repeating atoms): also the same skeleton over DISTINCT atoms, under the same values
 						j.implLine = fmt.Sprintf("S %s %d %s %s", kinds, nerr, tt, c12dProjected(j.mode, j.filter, j.atoms))
+					} else if j.kind == "S" && strings.HasPrefix(j.caseLine, "S e") {
+						// stream e (c12w7.go): the same text through every other parsing entry point, then ast.Parse again
+						j.implLine = fmt.Sprintf("S %s %d %s %s", kinds, nerr, tt, c12eObserve(j.mode, j.filter, j.atoms))
 					} else if j.kind == "S" {
 						j.implLine = fmt.Sprintf("S %s %d %s", kinds, nerr, tt)
 					} else {
@@ -493,7 +496,7 @@ func runC12(o *opts) error {
 			return err
 		}
 		var kjobs []*c12kJob
-		var njobs, mjobs []*c12nJob
+		var njobs, mjobs, qjobs []*c12nJob
 		for _, line := range strings.Split(strings.TrimSpace(string(data)), "\n") {
 			f := strings.Fields(line)
 			if len(f) < 6 {
@@ -508,6 +511,8 @@ func runC12(o *opts) error {
 			if f[0] == "N" {
 				if j := c12nFromLine(f); j != nil && j.store == "twins" {
 					mjobs = append(mjobs, j)
+				} else if j != nil && j.store == "nest" {
+					qjobs = append(qjobs, j)
 				} else if j != nil {
 					njobs = append(njobs, j)
 				}
@@ -541,6 +546,13 @@ func runC12(o *opts) error {
 			cases.line("%s", j.caseLine)
 			impl.line("%s", j.implLine)
 		}
+		if err := c12qRun(o, qjobs, stats); err != nil {
+			return err
+		}
+		for _, j := range qjobs {
+			cases.line("%s", j.caseLine)
+			impl.line("%s", j.implLine)
+		}
 		return nil
 	}
 
@@ -564,6 +576,11 @@ func runC12(o *opts) error {
 		for _, mode := range []string{"sym", "const", "cmp"} {
 			emit("corpus", mode, text, pre, c12PlainAtoms[:k], "")
 		}
+	}
+
+	// stream e: every parsing entry point on valid skeletons (c12w7.go); simplest skeletons first
+	if o.get("noe", "") == "" {
+		c12eStream(o, newRng(o.seed^0x6537), emit, stats)
 	}
 
 	// stream x: ALL skeletons with <= K atoms, <= NP parenthesis pairs, <= NN nots, canonical spelling
@@ -723,6 +740,17 @@ func runC12(o *opts) error {
 			return err
 		}
 		for _, j := range mjobs {
+			cases.line("%s", j.caseLine)
+			impl.line("%s", j.implLine)
+		}
+	}
+	// stream q: atoms with sub-queries nested 2-3 levels at every leaf position; families of equal filters (c12w7.go)
+	if o.get("noq", "") == "" {
+		qjobs := c12qGenerate(o, newRng(o.seed^0x7137), stats)
+		if err := c12qRun(o, qjobs, stats); err != nil {
+			return err
+		}
+		for _, j := range qjobs {
 			cases.line("%s", j.caseLine)
 			impl.line("%s", j.implLine)
 		}
